@@ -10,6 +10,7 @@ mod c02;
 mod c15;
 mod c14;
 mod c23;
+mod c11;
 
 fn main() {
     std::panic::set_hook(Box::new(|_| {}));
@@ -25,6 +26,7 @@ fn main() {
         "c15" => c15::run_case,
         "c14" => c14::run_case,
         "c23" => c23::run_case,
+        "c11" => c11::run_case,
         _ => {
             eprintln!("unknown subcommand {cmd}");
             std::process::exit(2);
